@@ -926,6 +926,7 @@ func TestC07(t *testing.T) {
 		}
 		input, p := mustInput(fp)
 		base := tickCase{Prog: fp.src, In: fp.in, N: tickCap}
+		rec.Journal("tick", base)
 		arm("tick", base, "the reference run (cancelled at poll n+1)")
 		ref := reference(p, input, tickCap)
 		disarm()
@@ -1061,6 +1062,7 @@ func TestC07(t *testing.T) {
 	for pi, fp := range fixedProgs {
 		input, p := mustInput(fp)
 		base := cancelCase{Prog: fp.src, In: fp.in, Vars: fp.vars, N: capN}
+		rec.Journal("cancel", base)
 		arm("cancel", base, "the reference run (cancelled at poll n+1)")
 		ref := reference(p, input, capN)
 		disarm()
@@ -1177,6 +1179,7 @@ func TestC07(t *testing.T) {
 			return
 		}
 		base := tickCase{Prog: src, Input: &univ.V{X: in}, N: wrapCap * 2}
+		rec.Journal("tick-gen", base)
 		arm("tick-gen", base, "the reference run (cancelled at poll n+1)")
 		ref := reference(p, in, base.N)
 		disarm()
@@ -1219,6 +1222,7 @@ func TestC07(t *testing.T) {
 		g := rapid.SampledFrom(guards).Draw(t, "guard")
 		c := advCase{Prog: gp.Src, Input: &univ.V{X: in}, Guard: g, Extra: extra, Budget: advBudget,
 			Via: rapid.SampledFrom([]string{"code", "query"}).Draw(t, "via")}
+		rec.Journal("advance-gen", c)
 		msg, info := doAdv("advance-gen", c)
 		if info.discard == "" {
 			rec.Sample(map[string]any{"sub": "advance-gen", "prog": c.text(), "input": univ.Show(in), "values": info.vals, "errors": info.errs})
@@ -1255,6 +1259,7 @@ func TestC07(t *testing.T) {
 			}
 		}
 		rec.Eval()
+		rec.Journal("one-shot", c)
 		rec.Class("one-shot/ctx/" + ck)
 		if msg := checkOne(c); msg != "" {
 			t.Fatalf("%s", rec.Fail("one-shot", c, "%s", msg))
@@ -1278,6 +1283,7 @@ func TestC07(t *testing.T) {
 		}
 		n := genCap
 		base := cancelCase{Prog: src, Input: &univ.V{X: in}, N: n}
+		rec.Journal("cancel-gen", base)
 		if w != 0 {
 			// the loop re-applies P to the same input: three periods are enough
 			bp, err := prepare(gp.Src, 0)
